@@ -189,6 +189,7 @@ type Parser struct {
 	prefix    string
 	currFunc  string
 	usedFuncs map[string][]string // Stores which function (key) calls which functions (values).
+	importing []string            // Stores the paths of the files which are currently being parsed.
 }
 
 func New() Parser {
@@ -216,6 +217,12 @@ func (p *Parser) parse(path string, imported bool) (Program, error) {
 	if _, err := os.Stat(path); err != nil {
 		return Program{}, err
 	}
+
+	// Make sure files don't import each other.
+	if slices.Contains(p.importing, path) {
+		return Program{}, fmt.Errorf(`import cycle detected at "%s"`, path)
+	}
+	p.importing = append(p.importing, path)
 	source, err := os.ReadFile(path)
 
 	if err != nil {
@@ -703,6 +710,7 @@ func (p *Parser) evaluateImports(ctx context) ([]Statement, error) {
 				return nil, fmt.Errorf(`an alias must be provided for the local import "%s" in "%s"`, path, p.path)
 			}
 			importParser := New()
+			importParser.importing = slices.Clone(p.importing)
 			importedProg, err := importParser.parse(absPath, true)
 
 			if err != nil {
